@@ -565,6 +565,32 @@ func caseSensitiveVariable(v variables.RuleVariable) bool {
 	return res
 }
 
+// keyRegexSource returns the pattern to compile for a /regex/ key selector of v. Collections
+// that match keys without regard to case store them lower-cased, so the letters of the pattern
+// are lower-cased too - except the one that follows a backslash: lower-casing \S, \D, \W or \B
+// would turn the class into its opposite.
+func keyRegexSource(v variables.RuleVariable, rx string) string {
+	if caseSensitiveVariable(v) {
+		return rx
+	}
+	var sb strings.Builder
+	sb.Grow(len(rx))
+	for i := 0; i < len(rx); i++ {
+		c := rx[i]
+		if c == '\\' && i+1 < len(rx) {
+			sb.WriteByte(c)
+			i++
+			sb.WriteByte(rx[i])
+			continue
+		}
+		if c >= 'A' && c <= 'Z' {
+			c += 'a' - 'A'
+		}
+		sb.WriteByte(c)
+	}
+	return sb.String()
+}
+
 // newRuleVariableParams creates a new ruleVariableParams
 // knows if a key needs to be lowercased. This probably should not be here,
 // but the knowledge of the type of the Map it not here also, so let's start with this.
@@ -591,9 +617,7 @@ func (r *Rule) AddVariable(v variables.RuleVariable, key string, iscount bool) e
 	}
 	var re *regexp.Regexp
 	if isRegex, rx := hasRegex(key); isRegex {
-		if !caseSensitiveVariable(v) {
-			rx = strings.ToLower(rx)
-		}
+		rx = keyRegexSource(v, rx)
 		if vare, err := r.memoizeDo("regexp:"+rx, func() (any, error) { return regexp.Compile(rx) }); err != nil {
 			return err
 		} else {
@@ -638,9 +662,7 @@ func needToSplitConcatenatedVariable(v variables.RuleVariable, ve variables.Rule
 func (r *Rule) AddVariableNegation(v variables.RuleVariable, key string) error {
 	var re *regexp.Regexp
 	if isRegex, rx := hasRegex(key); isRegex {
-		if !caseSensitiveVariable(v) {
-			rx = strings.ToLower(rx)
-		}
+		rx = keyRegexSource(v, rx)
 		if vare, err := r.memoizeDo("regexp:"+rx, func() (any, error) { return regexp.Compile(rx) }); err != nil {
 			return err
 		} else {
